@@ -1,3 +1,4 @@
+from math import isfinite
 from typing import Any, cast
 
 from niltype import Nil
@@ -61,17 +62,21 @@ class Representor(SchemaVisitor[str]):
 
         return r
 
+    def _represent_float(self, value: float) -> str:
+        # inf and nan have no literal: repr() gives bare names that cannot be evaluated
+        return repr(value) if isfinite(value) else f"float({str(value)!r})"
+
     def visit_float(self, schema: FloatSchema, *, indent: int = 0, **kwargs: Any) -> str:
         r = f"{self._name}.float"
 
         if schema.props.value is not Nil:
-            r += f"({schema.props.value!r})"
+            r += f"({self._represent_float(schema.props.value)})"
 
         if schema.props.min is not Nil:
-            r += f".min({schema.props.min!r})"
+            r += f".min({self._represent_float(schema.props.min)})"
 
         if schema.props.max is not Nil:
-            r += f".max({schema.props.max!r})"
+            r += f".max({self._represent_float(schema.props.max)})"
 
         if schema.props.precision is not Nil:
             r += f".precision({schema.props.precision!r})"
